@@ -1049,7 +1049,7 @@ def correspondence(run):
     for flags in range(12):
         calls.append(("characters", tuple(i == flags for i in range(12))))
     calls.append(("characters", tuple(False for _ in range(12))))
-    calls += [random_call(rng) for _ in range(run.n(2500, 30000))]
+    calls += [random_call(rng) for _ in range(run.n(4000, 30000))]
     terms, meta = [], []
     for i, call in enumerate(calls):
         obs = run_call(call)
@@ -1072,7 +1072,7 @@ def correspondence(run):
             rcalls.append(dict(base, fn="search", keys=allkeys))
             rcalls.append(dict(base, fn="searchAll", keys=allkeys))
             rcalls.append(dict(base, fn="replaceBy", items=[("val", 2), ("lit", "-"), ("val", "x"), ("val", 1)], count=0, form=0))
-    rcalls += [random_regex_call(rng) for _ in range(run.n(1200, 20000))]
+    rcalls += [random_regex_call(rng) for _ in range(run.n(1500, 20000))]
     terms, meta = [], []
     for i, rc in enumerate(rcalls):
         ms = matches_of(rc)
